@@ -61,7 +61,7 @@ class Engine(ExprEval, NumpyModel, NumpyFuncs):
         self.spec_consts = dict(spec_consts or {})
         self.spec_funcs = dict(spec_funcs or {})
         self.spec_names = set(self.spec_funcs) | {"forall", "exists", "implies", "iff", "ite", "old", "shape", "rowsum",
-                                                  "is_none", "typeis", "lam", "isnan_", "fresh", "using", "have", "optval", "isint_", "to_int", "gather_pos", "gather_src", "sort_inv", "sort_perm"}
+                                                  "is_none", "typeis", "lam", "isnan_", "fresh", "using", "have", "payload", "optval", "isint_", "to_int", "gather_pos", "gather_src", "sort_inv", "sort_perm"}
         self.externals = dict(externals or {})
         self.obligations: list[Obligation] = []
         self.assumptions: set[str] = set()
@@ -590,6 +590,11 @@ class Engine(ExprEval, NumpyModel, NumpyFuncs):
             if isinstance(v, OptV):
                 return v.is_none
             return v is NONE
+        if name == "payload":
+            v = args[0]
+            if isinstance(v, Opaque):
+                return v.payload
+            raise EngineError("payload() of a non-opaque value")
         if name == "optval":
             v = args[0]
             return v.value if isinstance(v, OptV) else (0 if v is NONE else v)
